@@ -5,6 +5,7 @@ func init() { props["C11"] = checkC11 }
 func checkC11(r *Run) {
 	r.Explain = "C11: (R1) the soft-rule verifier succeeds only with size<=max, fee computable, fee verified against the configured burn factor, no locked input, and the precision check on every output — and enforces nothing else; the fee verifier requires fee!=0, checked hours+fee, fee>=RequiredFee(total,burn); RequiredFee is floor(h/b) plus 1 exactly when h%b!=0; TransactionFee is in-out under in>=out; the precision check is amount % 10^(6-precision) == 0; (R2) soft failures are wrapped as soft errors only, hard failures as hard only; (R3) arithmetic of the fee helpers cannot wrap."
 	r.NotDec = "numerical agreement with an independent fee model for concrete values"
+	ruleMathutilIdioms(r, "C11-R1")
 	soft := []Req{
 		req("encoded size computable", "ok(coin.Transaction.Size($0))"),
 		req("size within the configured limit", "coin.Transaction.Size($0)#0 <= $4.MaxTransactionSize"),
@@ -62,6 +63,7 @@ func checkC11(r *Run) {
 	}
 	// R2 error classes
 	ruleVerifyParamsSites(r, "C11-R5")
+	ruleHardBeforeSoft(r, "C11-R2")
 	r.RejectsAre("C11-R2", "transaction.VerifySingleTxnSoftConstraints", 1, "transaction.NewErrTxnViolatesSoftConstraint(*)")
 	r.RejectsAre("C11-R2", "transaction.VerifySingleTxnHardConstraints", 3, "transaction.NewErrTxnViolatesHardConstraint(*)")
 	r.RejectsAre("C11-R2", "transaction.VerifyBlockTxnConstraints", 1, "transaction.NewErrTxnViolatesHardConstraint(*)")
